@@ -226,6 +226,28 @@ int main(int argc, char** argv) {
       HC_TRY(set(so->obj, key, val));
       vt_free(key); vt_free(val);
       emit(objs, "set", o, k, v, 0, 0, "", hc_exc, 0);
+    } else if (hc_is(0, "setalias")) {
+      /* setalias <o> <knew> <kold> <v> : arguments that live INSIDE the container itself.  The value is the one stored under
+         kold (a pointer into the container's storage), bound to knew; and, if kold is present, kold is bound to v again using
+         the container's own key object (taken from its iteration).  Both are ordinary calls; growth must not pull the
+         arguments away under them. */
+      int kn = (int)hc_int(2), ko = (int)hc_int(3), v = (int)hc_int(4);
+      var kold = vt_make(vt_k, ko);
+      int present = 0; hc_exc = "";
+      HC_TRY(present = mem(so->obj, kold) ? 1 : 0);
+      if (present) {
+        var knew = vt_make(vt_k, kn);
+        var inside = get(so->obj, kold); int vtok = vt_token(vt_v, vt_nv, inside);
+        HC_TRY(set(so->obj, knew, inside));
+        vt_free(knew); vt_free(kold);                 /* (temporaries gone before the event: the ledger shows the containers only) */
+        emit(objs, "set", o, kn, vtok, 0, 0, "", hc_exc, 0);
+        var ownkey = NULL; { size_t lim = len(so->obj) + 2, c = 0; foreach (kk in so->obj) { if (c++ > lim) break; if (vt_token(vt_k, vt_nk, kk) == ko) ownkey = kk; } }
+        if (ownkey) { var val = vt_make(vt_v, v); HC_TRY(set(so->obj, ownkey, val)); vt_free(val); emit(objs, "set", o, ko, v, 0, 0, "", hc_exc, 0); }
+      } else {
+        var knew = vt_make(vt_k, kn); var val = vt_make(vt_v, v);
+        HC_TRY(set(so->obj, knew, val)); vt_free(val); vt_free(knew); vt_free(kold);
+        emit(objs, "set", o, kn, v, 0, 0, "", hc_exc, 0);
+      }
     } else if (hc_is(0, "rem")) {
       int k = (int)hc_int(2);
       var key = vt_make(vt_k, k);
